@@ -24,7 +24,7 @@ BUDGET_S = {"quick": 120, "thorough": 1500}
 RULE = ("random operation sequences of length 40 over 2 sessions x 3 regions: seed grants (repeated, overlapping names, "
         "prefix-related URLs, the same URL under several names / regions), Seed request+response flows through the real "
         "event manager, temporary / wrapper / proxy-only registrations (incl. repeated ones), lookups by name, resolution of "
-        "granted URLs with suffixes and of unrelated URLs. quick 8 x 60 sequences, thorough 16 x 600. distinct_nontrivial = distinct operation sequences + distinct (operation, outcome class) pairs")
+        "granted URLs with suffixes and of unrelated URLs. quick 8 x 60 sequences, thorough 16 x 3000. distinct_nontrivial = distinct operation sequences + distinct (operation, outcome class) pairs")
 ASSUMPTIONS = [
     "when several granted URLs are prefixes of a request URL any of them is an acceptable attribution",
     "asset-server caps (GetMesh*, GetTexture*, ViewerAsset*) that are not wrappers may resolve without region/session "
@@ -323,7 +323,7 @@ def run_sequence(ctx, seed):
 
 
 def run(ctx):
-    n = ctx.pick(60, 600)
+    n = ctx.pick(60, 3000)
     for i in range(n):
         if ctx.out_of_time():
             break
